@@ -47,15 +47,15 @@ PROPS = {
         decided="only the UTC converter (and the simulation filter, which localises explicitly) reads the local-time series; the converter localises with the pattern's zone, keeps skipped hours, sums duplicated ones, and every definition of the returned frame on every return path comes from the per-timestamp conversion; nothing rewrites the converted series afterwards",
         not_decided="totals, DST merging, offsets (pandas/pytz runtime semantics)"),
     "C12": dict(
-        rules=["R-DEG", "R-LEAK", "R-PROV"],
+        rules=["R-DEG", "R-LEAK", "R-PROV", "R-MAG", "R-WRITE"],
         decided="homogeneity degree of each footprint formula in each documented driver, independence rows, no loop variable read after its loop, and provenance completeness so that a live edit of a driver reaches the footprints",
         not_decided="floating-point exactness of k*x"),
     "C13": dict(
-        rules=["R-JSON-KEYS", "R-JSON-KINDS", "R-JSON-UPG", "R-JSON-CLS", "R-JSON-ID", "R-JSON-LOAD", "R-JSON-SIB", "R-CACHE:json"],
+        rules=["R-JSON-KEYS", "R-JSON-KINDS", "R-JSON-UPG", "R-JSON-CLS", "R-JSON-ID", "R-JSON-LOAD", "R-JSON-SIB", "R-CACHE:json", "R-SETORDER", "R-JSON-DISPATCH"],
         decided="writer/reader key and kind agreement, to_json dispatch covers every attribute kind, sibling to_json signatures agree, scalar values written without rounding and hourly ones with 3 decimals, loader converts unconditionally and after the version upgrade, ids preserved, upgrade-handler table total, class table covers reachable classes, registries / memo tables used while loading are keyed by everything the stored object depends on",
         not_decided="numeric equality after reload, byte-equality of re-export, liveness of the loaded system"),
     "C14": dict(
-        rules=["R-TXN:val", "R-VAL-FORMS", "R-VAL-SIB", "R-VAL-DEF", "R-VAL-AUTH", "R-ENTRY"],
+        rules=["R-TXN:val", "R-VAL-FORMS", "R-VAL-SIB", "R-VAL-DEF", "R-VAL-AUTH", "R-ENTRY", "R-RULE-TXN"],
         decided="validation precedes mutation or is rolled back; validator dispatch covers every annotation form; the three allowed-values refusals raise; both entry paths call both validators; defaults table covers quantity parameters; __setattr__ overrides delegate on every path; inside the loop over the changes every path validates or has a None value; the controlling / dependent value of a conditional list is read from the object being validated",
         not_decided="nothing stated as undecided; the checks are structural"),
     "C15": dict(
@@ -63,11 +63,11 @@ PROPS = {
         decided="an exception leaving the recompute loop restores every value already replaced (the handler sees partial progress); no path of a rule assigns its attribute and raises afterwards; re-attachment registers children unconditionally; rules keep no state outside their calculated attribute (nothing a rollback would miss)",
         not_decided="behaviour of arbitrary later histories"),
     "C16": dict(
-        rules=["R-LISTAPI", "R-LISTPAIR", "R-LISTSIB", "R-LIVE", "R-REV", "R-EDGE", "R-GUARD", "R-NOOP", "R-OBJID", "R-ATTACH"],
+        rules=["R-LISTAPI", "R-LISTPAIR", "R-LISTSIB", "R-LIVE", "R-REV", "R-EDGE", "R-GUARD", "R-NOOP", "R-OBJID", "R-ATTACH", "R-SETORDER"],
         decided="list-API exhaustiveness, attach/detach pairing per mutator, shadow-copy/real-op agreement, receiver typestate after a mutator, reverse look-ups derived not stored, single append-only writers of link bookkeeping, no-op skip only on equality (and list equality not overridden by a set / length comparison), unique object ids, delete guard and one-system check ordering and reachability from the edit path",
         not_decided="list-content equivalence with Python lists for every operation sequence"),
     "C17": dict(
-        rules=["R-CALC", "R-PROV", "R-ORDER", "R-PLACEHOLDER", "R-SIB-JOB", "R-SERV", "R-DEG", "R-REACH", "R-PARENT-USED", "R-CACHE:model"],
+        rules=["R-CALC", "R-PROV", "R-ORDER", "R-PLACEHOLDER", "R-SIB-JOB", "R-SERV", "R-DEG", "R-REACH", "R-PARENT-USED", "R-CACHE:model", "R-WRITE"],
         decided="builder rule tables, provenance (per branch) and schedule; constant placeholders are calculated; each recorded parent of a looked-up value is used by the lookup; Job/ServiceJob agree; server accounts for services; a class that looks up its holders' holders is named by those holders' own dependents list (a freshly linked service reaches its server); the schedule is checked against whatever class list the chain optimiser ranks by; the two stated builder formulas have the stated shape",
         not_decided="numeric equality builder-model vs plain-model"),
     "C18": dict(
@@ -75,7 +75,7 @@ PROPS = {
         decided="def-before-use in the canonical schedule (and its reordering guards), rules write only their own attribute, acyclicity, no value-changing in-place call on model state, no store into .value from outside, read-only views",
         not_decided="determinism of pint/pandas (trusted)"),
     "C19": dict(
-        rules=["R-SEL", "R-IDFLOW", "R-LEAK", "R-ACCUM", "R-OBJID", "R-LASTWINS"],
+        rules=["R-SEL", "R-IDFLOW", "R-LEAK", "R-ACCUM", "R-OBJID", "R-LASTWINS", "R-SETORDER"],
         decided="positional selection from hash-ordered collections only at proven-singleton sites; identity never flows into values; object ids unique per object; no loop variable read after its loop, no order-dependent accumulation (scaling inside a loop) and no last-element-wins overwrite inside loops over set-ordered collections",
         not_decided="last-ulp effects of summation order over set-ordered collections (listed, not alarmed)"),
     "C20": dict(
